@@ -14,6 +14,10 @@ structure EnfP where
   prm : List (String × PRM) := []
   /-- compiled matchers as they see the pattern managers (parallel to `Enf.cache`) -/
   pcache : List (String × List (String × PRM)) := []
+  /-- role definitions whose assertion has no role manager bound (`ast.RM == nil`): after a
+      LoadPolicy with auto-build off the freshly copied model carries none until BuildRoleLinks or an
+      incremental link update binds it; compiling a matcher that calls such a g() fails -/
+  unbound : List String := []
 deriving Inhabited
 
 namespace EnfP
@@ -36,6 +40,9 @@ def shadowRebuild (e : EnfP) : EnfP :=
       let rules := ((e.base.g.lookup gt).map (·.policy)).getD []
       (gt, (rm.clear.applyRules e.table (e.countOf gt) true rules).1)) }
 
+/-- `ast.RM = rm` in `buildIncrementalRoleLinks` -/
+def bind (e : EnfP) (gt : String) : EnfP := { e with unbound := e.unbound.filter (· != gt) }
+
 /-- keep the pattern side of the matcher cache in step with the plain side: it is dropped
     whenever the plain model invalidated (`matcherMap` is one map) -/
 def syncCache (e : EnfP) : EnfP := if e.base.cache.isEmpty then { e with pcache := [] } else e
@@ -44,19 +51,19 @@ def syncCache (e : EnfP) : EnfP := if e.base.cache.isEmpty then { e with pcache 
     `BuildIncrementalRoleLinks` calls of the `*WithoutNotify` function -/
 def delta (before : Enf) (op : MOp) (x : EnfP) : EnfP :=
   match op with
-  | .add "g" pt rule => x.shadowRules pt true [rule]
-  | .addMany "g" pt _ rules => x.shadowRules pt true rules
-  | .remove "g" pt rule => x.shadowRules pt false [rule]
-  | .removeMany "g" pt rules => x.shadowRules pt false rules
-  | .update "g" pt o n => (x.shadowRules pt false [o]).shadowRules pt true [n]
-  | .updateMany "g" pt os ns => (x.shadowRules pt false os).shadowRules pt true ns
+  | .add "g" pt rule => (x.shadowRules pt true [rule]).bind pt
+  | .addMany "g" pt _ rules => (x.shadowRules pt true rules).bind pt
+  | .remove "g" pt rule => (x.shadowRules pt false [rule]).bind pt
+  | .removeMany "g" pt rules => (x.shadowRules pt false rules).bind pt
+  | .update "g" pt o n => ((x.shadowRules pt false [o]).shadowRules pt true [n]).bind pt
+  | .updateMany "g" pt os ns => ((x.shadowRules pt false os).shadowRules pt true ns).bind pt
   | .removeFiltered "g" pt fi vals =>
       let eff := match before.getStore "g" pt with
         | some s => match s.removeFiltered fi vals with | some (_, _, eff) => eff | none => []
         | none => []
-      x.shadowRules pt false eff
+      (x.shadowRules pt false eff).bind pt
   | .clear => { x with prm := x.prm.map (fun (gt, rm) => (gt, rm.clear)) }
-  | .buildLinks => x.shadowRebuild
+  | .buildLinks => { x.shadowRebuild with unbound := [] }
   | _ => x
 
 /-- one management call -/
@@ -72,7 +79,11 @@ def applyM (e : EnfP) (op : MOp) : Option (EnfP × Enf.MRes) :=
 def loadPolicy (e : EnfP) : EnfP × Bool :=
   let (b', ok) := e.base.loadPolicy
   let e' : EnfP := { e with base := b' }
-  (if b'.autoBuild && ok then e'.shadowRebuild.syncCache else e'.syncCache, ok)
+  if !ok then (e'.syncCache, false)
+  else if b'.autoBuild then ({ e'.shadowRebuild.syncCache with unbound := [] }, true)
+  else
+    -- `e.model = newModel`: the copied assertions carry no role manager
+    ({ e'.syncCache with unbound := b'.md.g.map (·.1) }, true)
 
 /-- `AddNamedMatchingFunc(gt, name, fn)`: invalidates, the manager of `gt` becomes (stays) a
     pattern manager and rebuilds -/
@@ -100,7 +111,13 @@ def resetRoleManager (e : EnfP) (gt : String) : EnfP × Bool :=
 
 /-- `Enforce`: role definitions with a pattern manager answer through it -/
 def enforceStep (e : EnfP) (ctx : EnforceCtx) (custom : Option String) (rvals : List Val) : EnfP × EnfRes :=
-  if e.prm.isEmpty then
+  let cm0 : Option Expr := match custom with
+    | some c => e.base.customMatchers.lookup c
+    | none => e.base.md.m.lookup ctx.mType
+  -- a g() of an unbound role definition is an undefined function: compiling the matcher fails
+  -- (the request-size check and the enabled shortcut come first / later as in Go: disabled answers true)
+  if e.base.enabled && !e.unbound.isEmpty && (match cm0 with | some m => m.gTypes.any e.unbound.contains | none => false) then (e, none)
+  else if e.prm.isEmpty then
     let (b', r) := e.base.enforceStep ctx custom rvals
     ({ e with base := b' }, r)
   else if !e.base.enabled then (e, some (true, none))
